@@ -496,6 +496,10 @@ theorem inv_step (s : St) (e : Ev) (hI : Inv s) (hok : ok full s e = true) : Inv
   | gcList l => exact inv_gcList s l hI hok
   | gcRelease => exact inv_gcRelease s hI hok
   | gcDelete p => exact inv_gcDelete s p hI hok
+  | mLock r =>
+    exact inv_same_rs s _ hI ⟨rfl, rfl, rfl, rfl, rfl, rfl, rfl, rfl⟩ (fun _ => ⟨rfl, rfl, rfl, rfl, rfl⟩)
+  | mUnlock r =>
+    exact inv_same_rs s _ hI ⟨rfl, rfl, rfl, rfl, rfl, rfl, rfl, rfl⟩ (fun _ => ⟨rfl, rfl, rfl, rfl, rfl⟩)
 
 theorem check_append (f : St → Ev → Bool) (s : St) (t u : List Ev) :
     check f s (t ++ u) = (check f s t && check f (run s t) u) := by
